@@ -410,6 +410,10 @@ class Own:
                         del mem[dt]
                     continue
                 if i.op == "load":
+                    ro = obj_of(i.a[0], bidx, interior=True) if isinstance(i.a[0], int) else None
+                    if ro is not None and ro["state"] == "released" and ro["site"] is not None and ro["released_at"] is not None:
+                        findings.append(Finding("use-after-release", f, i, "%s acquired at %s is read at %s after it was released at %s" %
+                                                (ro["label"], ro["site"].loc, i.loc, ro["released_at"].loc), view, ro))
                     src = P.strip(f, view.resolve(i.a[0], bidx) if isinstance(i.a[0], int) else i.a[0])
                     if isinstance(src, int) and src in slots:
                         val2obj[i.id] = slots[src]
